@@ -415,7 +415,7 @@ func genHistory(t *rapid.T) (history, *model) {
 }
 
 func TestProtocol(t *testing.T) {
-	rec.Check(t, rec.Scale(4000, 30000), func(t *rapid.T) {
+	rec.Check(t, rec.Scale(4000, 25000), func(t *rapid.T) {
 		h, m := genHistory(t)
 		rf := replayFile{Part: "protocol", History: &h}
 		data, _ := json.MarshalIndent(rf, "", " ")
